@@ -21,11 +21,6 @@ def fitLoopAll (S : Schema) (p : FitState → Bool) : Nat → FitState → Optio
       | .ok st' => (fitLoopAll S p fuel st').map (fun b => b && p st)
       | .error _ => none
 
-/-- `placed` and the frontier are in step: the last-child chain of non-leaf nodes of `placed` is at
-    least as long as the frontier is deep (the invariant behind the end half of `fit_emits_wf`,
-    Props/C11.lean) -/
-def inStep (st : FitState) : Bool := decide (st.frontier.length - 1 ≤ spineR st.placed)
-
 def handleRange (st : St) (op : String) (j : Json) : Option (D (St × Json)) :=
   match op with
   | "fitsTrivially" => some do
@@ -140,7 +135,7 @@ def handleRange (st : St) (op : String) (j : Json) : Option (D (St × Json)) :=
           | some false =>
             match fitInit S rf sl with
             | .ok st0 =>
-              match fitLoopAll S inStep (fitFuel S sl) st0 with
+              match fitLoopAll S FitState.inStepB (fitFuel S sl) st0 with
               | some b => Json.bool b
               | none => Json.null
             | .error _ => Json.null
